@@ -172,6 +172,126 @@ def auto_stubs(repo, A, stderr):
     return out
 
 
+def _split_args(m, src, lo, hi):
+    """top-level comma split of src[lo:hi] (m = masked text)"""
+    out, k, start = [], lo, lo
+    while k < hi:
+        c = m[k]
+        if c in "([{":
+            k = rs.match_close(m, k)
+        elif c == ",":
+            out.append(src[start:k].strip())
+            start = k + 1
+        k += 1
+    last = src[start:hi].strip()
+    if last:
+        out.append(last)
+    return out
+
+
+def inline_helpers(repo, A, stderr):
+    """T13.  The changed code calls an inherent method that is not among the extracted items (typically a helper
+    that a refactoring split off).  If the helper is simple - no loop, no early return, no `?`, not recursive, no
+    generics, plain `name: Type` parameters - every call `<recv>.name(args)` with a receiver path that starts at
+    `self` is replaced by the helper's real body:
+        { let __h0 = arg0; ..; { let p0 = __h0; ..; <body with self := recv> } }
+    so that the caller is verified against the code that really runs, not against an unconstrained stub.
+    Returns [(description)] and edits A.text / A.linemap in place."""
+    wanted = []
+    for mm in _missing.finditer(stderr):
+        name, ty = mm.group(1), mm.group(2)
+        ty = ty.replace("&mut", "").replace("&", "").strip()
+        ty = re.split(r"[<\s]", ty)[0].split("::")[-1]
+        if (name, ty) not in wanted:
+            wanted.append((name, ty))
+    files = []
+    for io in A.items:
+        if io.file not in files:
+            files.append(io.file)
+    done = []
+    for (name, ty) in wanted:
+        found = None
+        for f in files:
+            src, m = U.load(repo, f)
+            for it in rs.items(src, m, 0, len(src)):
+                if it.kind != "impl" or it.cfg_test or it.impl_type != ty or it.impl_trait is not None:
+                    continue
+                for sub in rs.items(src, m, it.body_open + 1, it.end - 1):
+                    if sub.kind == "fn" and sub.name == name and sub.body_open is not None:
+                        found = (f, src, m, sub)
+            if found:
+                break
+        if not found:
+            continue
+        f, src, m, sub = found
+        try:
+            fp = rs.fn_parts(src, m, sub)
+        except rs.ScanError:
+            continue
+        sig = m[sub.head:fp.params_open]
+        body_m = m[fp.body_open + 1:fp.body_close]
+        if "<" in sig or fp.where_start is not None:
+            continue
+        if re.search(r"\b(return|for|while|loop|await)\b|\?", body_m) or re.search(r"\b%s\s*\(" % re.escape(name), body_m):
+            continue
+        params = _split_args(m, src, fp.params_open + 1, fp.params_close)
+        if not params or not re.match(r"^&\s*(mut\s+)?self$|^self$", params[0].strip()):
+            continue
+        plist = []
+        ok = True
+        for prm in params[1:]:
+            mp = re.match(r"^(mut\s+)?([A-Za-z_][A-Za-z0-9_]*)\s*:\s*(.+)$", prm, re.S)
+            if not mp:
+                ok = False
+                break
+            plist.append((bool(mp.group(1)), mp.group(2), re.sub(r"\s+", " ", mp.group(3)).strip()))
+        if not ok:
+            continue
+        body_src = src[fp.body_open + 1:fp.body_close]
+        body_line0 = U.line_of(src, fp.body_open + 1)
+        n_calls = 0
+        while True:
+            tm = rs.mask(A.text)
+            mc = re.search(r"(\bself(?:\s*\.\s*[A-Za-z_][A-Za-z0-9_]*)*?)\s*\.\s*%s\s*\(" % re.escape(name), tm)
+            if not mc:
+                break
+            par = tm.index("(", mc.end() - 1)
+            try:
+                close = rs.match_close(tm, par)
+            except rs.ScanError:
+                break
+            recv = re.sub(r"\s+", "", A.text[mc.start(1):mc.end(1)])
+            args = _split_args(tm, A.text, par + 1, close)
+            if len(args) != len(plist):
+                break
+            b = body_src
+            if recv != "self":
+                bm = rs.mask(b)
+                pieces, last = [], 0
+                for ms in re.finditer(r"\bself\b", bm):
+                    pieces.append(b[last:ms.start()])
+                    pieces.append(recv)
+                    last = ms.end()
+                pieces.append(b[last:])
+                b = "".join(pieces)
+            head = "{ " + " ".join("let __h%d = %s;" % (i, a_) for i, a_ in enumerate(args)) + " { " + \
+                   " ".join("let %s%s: %s = __h%d;" % ("mut " if mu else "", pn, pt, i) for i, (mu, pn, pt) in enumerate(plist))
+            rep = head + b + " } }"
+            l0 = A.text.count("\n", 0, mc.start(1))
+            l1 = A.text.count("\n", 0, close)
+            A.text = A.text[:mc.start(1)] + rep + A.text[close + 1:]
+            nl = rep.count("\n")
+            first = A.linemap[l0] if l0 < len(A.linemap) else ("gen", "inline", 0)
+            A.linemap = A.linemap[:l0] + [first] + [("repo", f, body_line0 + k) for k in range(1, nl + 1)] + A.linemap[l1 + 1:]
+            n_calls += 1
+            if n_calls > 20:
+                break
+        if n_calls:
+            done.append("T13 %s::%s (%s:%d): %d call%s replaced by the helper's body (it is not under contract; "
+                        "simple enough to be verified in place)" % (ty, name, f, U.line_of(src, sub.start), n_calls, "" if n_calls == 1 else "s"))
+    return done
+
+
 def no_decreases_fixups(A, stderr, gen):
     """Changed code contains a loop/recursion without a measure.  Termination of that function is then not
     checked (attribute exec_allows_no_decreases_clause) so that its contract can still be decided."""
@@ -228,7 +348,9 @@ def run_unit(repo, tmpl_path, build_dir, twins=False, rlimit=None, extra=(), tim
         A.text = re.sub(r"#\[verifier::rlimit\(\d+\)\]", "", A.text)
         if rlimit is None:
             rlimit = 3
-    for attempt in range(3):
+    inline_backup = None
+    no_inline = False
+    for attempt in range(8):
         with open(gen, "w", encoding="utf-8") as f:
             f.write(A.text)
         with open(gen + ".map.json", "w") as f:
@@ -241,6 +363,24 @@ def run_unit(repo, tmpl_path, build_dir, twins=False, rlimit=None, extra=(), tim
             R.wall_s = time.time() - t0
             return R
         R.cmd = " ".join(cmd)
+        if inline_backup is not None and ('"encountered-vir-error": true' in p.stdout or '"function-breakdown"' not in p.stdout) \
+                and "no method named" not in p.stderr and "must have a decreases clause" not in p.stderr:
+            # the inlined helper does not compile under Verus (constructs outside its reach): go back and model the
+            # helper as an external function instead
+            A.text, A.linemap = inline_backup
+            R.auto_stubs = [d for d in R.auto_stubs if not d.startswith("T13 ")]
+            inline_backup = None
+            no_inline = True
+            continue
+        inl = []
+        if "no method named" in p.stderr and not no_inline:
+            backup = (A.text, list(A.linemap))
+            inl = inline_helpers(repo, A, p.stderr)
+            if inl and inline_backup is None:
+                inline_backup = backup
+        if inl:
+            R.auto_stubs += inl
+            continue
         stubs = auto_stubs(repo, A, p.stderr) if "no method named" in p.stderr else []
         stubs = [s_ for s_ in stubs if s_[1] not in R.auto_stubs]
         nodec = no_decreases_fixups(A, p.stderr, gen) if "must have a decreases clause" in p.stderr else []
